@@ -24,13 +24,27 @@ type boundedReport struct {
 	Cases      int      `json:"cases"`
 	Distinct   int      `json:"distinct_nontrivial"`
 	Exhaustive bool     `json:"exhaustive"`
-	Violations []string `json:"violations"`
-	Samples    []string `json:"samples"`
+	Violations []string       `json:"violations"`
+	ByClass    map[string]int `json:"violations_by_class"`
+	Samples    []string       `json:"samples"`
+	seen       map[string]bool
 }
 
-func (r *boundedReport) violation(id string, format string, a ...any) {
-	if len(r.Violations) < 40 {
-		r.Violations = append(r.Violations, id+" :: "+fmt.Sprintf(format, a...))
+// violation records "[class] input :: message". The class (kind of failure) is what /verif/known_findings.jsonl refers
+// to; at most 12 violations are kept per class, all are counted.
+func (r *boundedReport) violation(class, id string, format string, a ...any) {
+	if r.ByClass == nil {
+		r.ByClass = map[string]int{}
+		r.seen = map[string]bool{}
+	}
+	key := class + "|" + id
+	if r.seen[key] {
+		return
+	}
+	r.seen[key] = true
+	r.ByClass[class]++
+	if r.ByClass[class] <= 12 {
+		r.Violations = append(r.Violations, "["+class+"] "+id+" :: "+fmt.Sprintf(format, a...))
 	}
 }
 
